@@ -52,6 +52,12 @@ pub enum AnyDev {
 }
 
 impl Handler for AnyDev {
+    fn on_turn(&mut self, w: &mut World, qs: &mut Queues) -> bool {
+        match self {
+            AnyDev::Sound(s) if s.patience > 0 => s.on_turn(w, qs),
+            _ => false,
+        }
+    }
     fn on_chain(&mut self, w: &mut World, qs: &mut Queues, q: u16, c: Chain) {
         match self {
             AnyDev::Hold { chains } => {
@@ -60,7 +66,8 @@ impl Handler for AnyDev {
             }
             AnyDev::Gpu(g) => g.on_chain(w, qs, q, c),
             AnyDev::Sound(s) => {
-                s.hold_all = true;
+                // everything is held, except while a blocking transfer runs against the slow device
+                s.hold_all = s.patience == 0;
                 s.on_chain(w, qs, q, c)
             }
             AnyDev::Echo { replies } => {
@@ -85,6 +92,7 @@ pub struct Outcome {
 
 struct Run<'a> {
     c: &'a TCase,
+    dev: Shared<AnyDev>,
 }
 
 impl WithT for Run<'_> {
@@ -112,7 +120,17 @@ impl WithT for Run<'_> {
                 }
             };
         }
+        let frame_marker = 0u8;
+        let marker = &frame_marker as *const u8 as usize;
         macro_rules! step {
+            ($what:expr, $e:expr) => {{
+                step_inner!($what, $e);
+                if let Some(m) = drv::posted_in_dead_stack(marker) {
+                    return Err(format!("{} returned, but {}", $what, m));
+                }
+            }};
+        }
+        macro_rules! step_inner {
             ($what:expr, $e:expr) => {
                 match guard(|| $e) {
                     Caught::Ok(Ok(_)) => {}
@@ -369,7 +387,7 @@ impl WithT for Run<'_> {
                 // has not completed (in and out of submission order)
                 let mut toks: Vec<u16> = Vec::new();
                 for &op in c.script.iter() {
-                    match op % 6 {
+                    match op % 7 {
                         0 | 1 => {
                             let frames = [op; 32];
                             let mut tok = None;
@@ -384,7 +402,7 @@ impl WithT for Run<'_> {
                         }
                         2 | 3 => {
                             if !toks.is_empty() {
-                                let k = if op % 6 == 2 { 0 } else { toks.len() - 1 };
+                                let k = if op % 7 == 2 { 0 } else { toks.len() - 1 };
                                 let t = toks[k];
                                 let mut ok = false;
                                 step!("pcm_xfer_ok", {
@@ -398,6 +416,41 @@ impl WithT for Run<'_> {
                             }
                         }
                         4 => step!("pcm_set_params", d.pcm_set_params(0, 64, 32, PcmFeatures::empty(), 2, PcmFormat::S16, PcmRate::Rate48000)),
+                        6 => {
+                            // a blocking transfer of 33..48 periods against a slow device that lets
+                            // the queue fill up (only while nothing non-blocking is outstanding)
+                            if toks.is_empty() && steps < 2 {
+                                let frames = vec![op; 32 * (33 + (op as usize / 7) % 16)];
+                                self.dev.with(|dv| {
+                                    if let AnyDev::Sound(s) = &mut dv.h {
+                                        s.patience = 1 + (op as u32 / 7) % 3;
+                                        s.patience_left = s.patience;
+                                        s.lag = 40;
+                                        s.hold_all = false;
+                                    }
+                                });
+                                // (an *error* return of pcm_xfer with transfers still posted is the open
+                                // finding recorded under C07; only a normal return is judged here)
+                                let mut ok = false;
+                                step_inner!("pcm_xfer", {
+                                    let r = d.pcm_xfer(0, &frames);
+                                    ok = r.is_ok();
+                                    r
+                                });
+                                if ok {
+                                    if let Some(m) = drv::posted_in_dead_stack(marker) {
+                                        return Err(format!("pcm_xfer returned Ok, but {}", m));
+                                    }
+                                }
+                                self.dev.with(|dv| {
+                                    if let AnyDev::Sound(s) = &mut dv.h {
+                                        s.patience = 0;
+                                        s.patience_left = 0;
+                                        s.hold_all = true;
+                                    }
+                                });
+                            }
+                        }
                         _ => step!("latest_notification", d.latest_notification()),
                     }
                 }
@@ -418,7 +471,7 @@ impl WithT for Run<'_> {
     }
 }
 
-fn setup(c: &TCase) -> (u32, usize) {
+fn setup(c: &TCase) -> (u32, usize, Shared<AnyDev>) {
     let (dtype, cfg): (u32, Vec<u8>) = match c.drv {
         D::Blk => (2, {
             let mut v = vec![0u8; 64];
@@ -461,14 +514,14 @@ fn setup(c: &TCase) -> (u32, usize) {
     if matches!(c.drv, D::Socket | D::Console) {
         sim.qs.policy_of = vec![Some(Serve::Late(200)), None, None]; // the receive queue is never served
     }
-    Shared::install(sim);
-    (dtype, l)
+    let dev = Shared::install(sim);
+    (dtype, l, dev)
 }
 
 pub fn run_one(c: &TCase) -> Result<(Outcome, u64), String> {
-    let (dtype, cfg_len) = setup(c);
+    let (dtype, cfg_len, dev) = setup(c);
     with(|w| w.hal.fail_alloc_at = if c.fail == 0 { None } else { Some(c.fail as u64) });
-    let out = with_transport(c.kind, dtype, cfg_len, Run { c })??;
+    let out = with_transport(c.kind, dtype, cfg_len, Run { c, dev })??;
     let (calls, live, failed_hit) = with(|w| (w.hal.alloc_calls, w.hal.live_dma_count(), w.hal.log.iter().any(|e| matches!(e, crate::hal::HalEv::AllocFailed { .. }))));
     // substrate faults: wrong dealloc arguments, double free, release while the device is live
     if let Some(f) = world::with(|w| w.faults.iter().find(|f| ["dealloc", "quiesce", "attached", "unshare", "share", "freed_posted"].contains(&f.prop)).cloned()) {
